@@ -112,6 +112,22 @@ ADDENDA = {
     "C05": "Also: every evaluation entry point reports cost = (budget the machine was created with) - (budget left) (shared with C19).",
     "C15": "Also: the parser's `I <n>` and the printer convert Data big integers through from/to_pallas_bigint, whose -1-n convention is checked on MIR in both directions. The grammar reads a Data constructor index with a rule that holds every u64, and a parsed name's unique always comes from the interner.",
 }
+# session 3 (round 3 for the twelve properties that had had two): clauses answering those changes and the defects found on the way
+ADDENDA3 = {
+    "C03": "Round 3: the compute / return tables and the builtin call table have one arm per variant (a guarded second arm is a hidden row); read-back threads no mutable state across environments and is followed through a delegating worker; Type::from(&Constant) names the constant's own kind with list / pair components in place.",
+    "C04": "Round 3: where the Aiken signature names a concrete list element type, the call arm checks the list's element type (fixed: both multiScalarMul arms accepted an empty list of another type); a semantics-gated argument check precedes every successful return of its arm; one arm per builtin in the call / cost / signature tables; the evaluator section of C10's panic audit is re-run (a builtin never crashes the evaluator).",
+    "C05": "Round 3: every arm of a constructor in Machine::compute (guarded ones included) charges its step; one cost arm per builtin.",
+    "C06": "Round 3: the key under which a generic function's instantiations are compiled gives every UplcType constructor its own suffix and association lists a key apart from plain lists; AirTree::mut_held_types exposes every held type (shared with C01).",
+    "C07": "Round 3: the current module's constructor table answers only for types of the current module — a prelude type is looked up in the prelude (fixed: a local type named like a prelude type hijacked the exhaustiveness check).",
+    "C08": "Round 3: a SerializableProgram version variant is written only in a match arm on that version or under the hash comparison for it; Project::address and ::policy hash a loaded validator under its own version (fixed: address used the project configuration's); the delegation part keeps the kind of the stake credential.",
+    "C09": "Round 3: the reduce step of the parallel parse looks for common keys before it extends; flags folded over the directory walk are monotone; Definitions::register leaves no in-progress mark behind on an error (fixed: --include-all-types was hash-order dependent); inside the hash-ordered loops of Blueprint::new definitions are only added to.",
+    "C16": "Round 3: TestResult::is_success, evaluated as a finite decision table over (Err | Ok(None) | Ok(Some)) x (3 modes), equals the specification; the seed given on the command line reaches the run unchanged.",
+    "C17": "Round 3: no static or thread_local holds reference-counted AST data.",
+    "C18": "Round 3: an application too many is an Err whatever the form of Validator::apply; every lockstep walk of a value and its schema compares the two lengths first.",
+    "C20": "Round 3: a parser action converting a sequence into a non-empty vector with expect is fed by `.at_least(1)`; an error value whose construction can panic is built lazily.",
+}
+for _pid, _t in ADDENDA3.items():
+    ADDENDA[_pid] = (ADDENDA.get(_pid, "") + " " + _t).strip()
 for _pid, _t in ADDENDA.items():
     CLAIMS[_pid]["text"] = CLAIMS[_pid]["text"].rstrip() + " " + _t
     if _pid in ("C01", "C02", "C04", "C15") and "flow" not in CLAIMS[_pid]["engine"]:
